@@ -95,7 +95,7 @@ def run_big(case):
         else:
             wcase = {"phase": "write", "arc": arc, "filters": case["filters"], "members": members, "password": case.get("password"),
                      "how": case.get("how", "writef"), "seed": case.get("seed", 1), "zstd_window": case.get("zstd_window"),
-                     "per_session": case.get("per_session"), "linkflag": case.get("linkflag", [])}
+                     "per_session": case.get("per_session"), "linkflag": case.get("linkflag", []), "pad_header": case.get("pad_header")}
             if wcase["how"] == "write":
                 from .. import bigmem
                 wcase["srcdir"] = os.path.join(wd, "src")
@@ -111,7 +111,7 @@ def run_big(case):
                 return out
         for mode in case["modes"]:
             rcase = {"phase": mode, "arc": arc, "members": members, "password": case.get("password"), "out": os.path.join(wd, "out"),
-                     "limit": case.get("limit"), "rlimit_data": case.get("rlimit_data")}
+                     "limit": case.get("limit"), "rlimit_data": case.get("rlimit_data"), "tag": case.get("tag", "")}
             r = child(rcase, tmo)
             if case.get("declared") or case.get("refusal_ok"):
                 ok = not r.get("timeout") and not r.get("died")          # any clean verdict; memory is what is judged
@@ -131,14 +131,15 @@ def classify(tr, l):
     k = e.get("e")
     key = f"mem-trace-rejected:{k}"
     if k == "rss":
-        key = f"over-budget:{e.get('phase')}"
+        key = f"over-budget:{e.get('phase')}" + (":" + e["tag"] if e.get("tag") else "")
     elif k == "call":
         if e.get("t", 0) > e.get("m", 0) + (64 << 20):
             key = "decoder-output-unbounded"
         elif e.get("h") and e.get("d", 0) > 0:
             key = "input-piles-up-in-decoder"
         else:
-            key = "step-rule"
+            tag = next((x.get("tag") for x in tr if x.get("e") == "rss" and x.get("tag")), "")
+            key = "step-rule" + (":" + tag if tag else "")
     elif k == "wret":
         key = "writer-retains-member-content"
     elif k == "wread":
@@ -202,6 +203,8 @@ def plan(tier, R):
     add("lzma2-3-folders-period", F("LZMA2"), [(512 * MiB, P_)] * 3, ("extract-factory",), per_session=True)
     # --- a member that claims to be a symbolic link (its content would be the link's target): refusing it is fine
     add("zstd-linkflag", F("ZStd"), [(10, X), (512 * MiB, Z)], ("extract-path",), linkflag=[1], refusal_ok=True)
+    # --- an encoded header that unpacks to 512 MiB (zero padding behind its END mark; 80 KB on disk)
+    add("lzma2-padded-header", F("LZMA2"), [(10, X)], ("extract-factory",), pad_header=512 * MiB, tag="header-declared-size")
     # --- a ZStandard frame whose header declares a 1 GiB / 256 MiB window (two bytes of the archive size the decoder's history buffer):
     #     refusing it is fine, decoding it within the budget is fine
     add("zstd-window-2^30", F("ZStd"), [(big, Z)], ("extract-factory", "testzip"), zstd_window=30, refusal_ok=True)
